@@ -367,8 +367,8 @@ Section PrepareLoop.
   (* the body of the outer loop runs the inner loop over the addresses of its register and never breaks *)
   Definition outer_ok (regs : list reg) (body : rng -> dstate -> res (dstate * bool)) : Prop :=
     forall r st, In r regs -> exists inner, inner_ok r inner /\
-      body (rng_of r) st = match py_for (range_list (r_start r) (r_stop r)) inner st with
-                           | Ok st' => Ok (st', false) | Err e => Err e end.
+      body (rng_of r) st = (let! '(b', d') := py_for (range_list (r_start r) (r_stop r)) inner st in
+                            Ok ((b', d'), false)).
 
   Lemma cnt_of_group l : forall d o, cnt_of (group l d) o = cnt_of d o + count (map fst l) o.
   Proof.
@@ -387,7 +387,7 @@ Section PrepareLoop.
     - exists d. cbn. rewrite andb_false_r, andb_true_r. auto.
     - destruct (Hb r (bal, d) (or_introl eq_refl)) as (inner & Hin & Eb).
       destruct (inner_loop r inner (addrs r) (incl_refl _) Hin bal d) as (d1 & E1 & G1).
-      rewrite range_list_addrs in Eb. rewrite E1 in Eb.
+      rewrite range_list_addrs in Eb. rewrite E1 in Eb. cbn [bind] in Eb.
       assert (Hb' : outer_ok regs body) by (intros r0 st0 H0; apply Hb; right; exact H0).
       set (o1 := cg && overfull (cnt_of d) (map (decode S r) (addrs r))) in *.
       destruct (IH Hb' (bal && negb o1) d1) as (d2 & E2 & G2).
@@ -631,3 +631,16 @@ Proof.
   destruct f' as [|f']; [lia|]. cbn [prepare] in *.
   destruct (can_grow S regs && unbalanced S ov regs); [|exact H]. apply (IH f'); [exact H|lia].
 Qed.
+
+Lemma dict_set_new {V} (d : list (Z * V)) k v : ~ In k (keys d) -> dict_set d k v = d ++ [(k, v)].
+Proof.
+  induction d as [|[k' v'] d IH]; intros H; cbn [dict_set app]; [reflexivity|].
+  destruct (k =? k') eqn:E; [apply Z.eqb_eq in E; subst; exfalso; apply H; left; reflexivity|].
+  rewrite IH; [reflexivity|]. intros H1. apply H. right; exact H1.
+Qed.
+
+Lemma existsb_rng_of (f : rng -> bool) regs : existsb f (map rng_of regs) = existsb (fun r => f (rng_of r)) regs.
+Proof. induction regs as [|r regs IH]; cbn; [reflexivity|]. rewrite IH. reflexivity. Qed.
+
+Lemma chunk_dict_keys S regs : keys (chunk_dict S regs) = table S regs.
+Proof. unfold chunk_dict, keys. rewrite map_map. cbn. apply map_id. Qed.
